@@ -57,6 +57,15 @@ func refModel(initial int) porcupine.Model {
 // runRefRound: controlled threads own references on 1-3 snapshots and Open / Close /
 // NewIterator / Iterator.Close them concurrently; an outsider holds only the pointers.
 func runRefRound(t *rapid.T, c *CW, f *failer) (events []refEv, initial []int, racedFinalClose bool) {
+	return runRefRoundKeep(t, c, f, nil)
+}
+
+// runRefRoundKeep: keep[j] references of snapshot j are not handed to the threads (the harness releases them later).
+func runRefRoundKeep(t *rapid.T, c *CW, f *failer, keep map[int]int) (events []refEv, initial []int, racedFinalClose bool) {
+	kept := map[int]int{}
+	for j, n := range keep {
+		kept[j] = n
+	}
 	nth := rapid.IntRange(2, 4).Draw(t, "threads")
 	ns := len(c.snaps)
 	// every thread starts with 0-2 references per snapshot (opened sequentially here)
@@ -82,9 +91,9 @@ func runRefRound(t *rapid.T, c *CW, f *failer) (events []refEv, initial []int, r
 			}
 		}
 	}
-	// the harness's original reference of each snapshot is handed to thread 0
+	// the harness's original reference of each snapshot is handed to thread 0 (kept[j] references stay with the harness)
 	for j := 0; j < ns; j++ {
-		own[0][j] += c.snaps[j].refs - sum(own, j)
+		own[0][j] += c.snaps[j].refs - sum(own, j) - kept[j]
 	}
 	scripts := make([][]refOp, nth)
 	for i := range scripts {
@@ -159,8 +168,8 @@ func runRefRound(t *rapid.T, c *CW, f *failer) (events []refEv, initial []int, r
 		c.abandon()
 		f.failf(c.failSig(fail), "%v\nevents: %v", fail, events)
 	}
-	for _, si := range c.snaps {
-		si.refs = 0 // every reference was handed to the threads and released by them
+	for j, si := range c.snaps {
+		si.refs = kept[j] // every other reference was handed to the threads and released by them
 	}
 	// classification: an Open/NewIterator overlapped a Close on the same snapshot
 	for _, a := range events {
@@ -234,7 +243,17 @@ func TestC08(t *testing.T) {
 			}
 		}
 		f.logf("c08 snapshots=%d storm=%d", ns, storm)
-		events, initial, raced := runRefRound(t, c, f)
+		var keep map[int]int
+		if storm > 0 {
+			// the oldest snapshot keeps one reference with the harness: it is released sequentially afterwards,
+			// at full speed, so that one collection pass has to hand over the whole burst
+			if !c.snaps[0].snap.Open() {
+				f.failf("open-result", "Open of a held snapshot failed")
+			}
+			c.snaps[0].refs++
+			keep = map[int]int{0: 1}
+		}
+		events, initial, raced := runRefRoundKeep(t, c, f, keep)
 		// counter linearizability per snapshot
 		for j := range c.snaps {
 			var pops []porcupine.Operation
@@ -255,6 +274,9 @@ func TestC08(t *testing.T) {
 		}
 		// after the last Close nothing succeeds any more
 		for j, si := range c.snaps {
+			if si.refs > 0 {
+				continue
+			}
 			if si.snap.Open() {
 				f.failf("open-after-release", "Open succeeded on snapshot s%d after every reference was released", j)
 			}
